@@ -14,6 +14,7 @@ Expressions are written in prefix form, tokens separated by one space:
   `C=<canonicalize>|S=<simplify or panic>|D=<Debug string of S>|R=lo,hi|P=<0|1>|E=<orig>/<simp>;...`
 * `Z <w|c> <expr>` — `simplify_canonical` applied directly.  Answer `S=...`.
 * `F <expr> ; <expr>` — `remove_common_factors`.  Answer `<expr> ; <expr>`.
+* `E <expr> ; <expr>` — `PartialEq` (`==`).  Answer `eq=<0|1>`.
 * `G a b` — `gcd`.  `Q x y` — `div_ceil`.
 -/
 namespace RtenVerif.Driver.C11
@@ -111,6 +112,13 @@ def handle (line : String) : String :=
       | [l, r] =>
         match parseExpr (words l), parseExpr (words r) with
         | some l, some r => let p := rcf l r; showE p.1 ++ " ; " ++ showE p.2
+        | _, _ => "bad-request"
+      | _ => "bad-request"
+    | "E" :: ts =>
+      match (joinWith " " ts).splitOn " ; " with
+      | [l, r] =>
+        match parseExpr (words l), parseExpr (words r) with
+        | some l, some r => "eq=" ++ b01 (beq l r)
         | _, _ => "bad-request"
       | _ => "bad-request"
     | ["G", a, b] =>
